@@ -9,7 +9,9 @@ PROP = "C08"
 IMPORTS = "From JV Require Import Lib.Base Model.C08Heap Model.C08Inst Spec.C08FrameSpec Corr.C08Judge."
 RULE = ("one API call {get_defaults, parse_object(dict|Namespace), parse_string, parse_path, validate, dump(skip_validation?), "
         "save(existing file?), merge_config, strip_unknown, instantiate_classes} on a seeded random parser (2-5 arguments of type "
-        "int, str, Optional, List, Dict[str,.], Tuple with lists/dicts inside, nested up to depth 3; defaults are caller-owned "
+        "int, str, Optional, List, Dict[str,.], Tuple with lists/dicts inside (also two and three tuple levels deep), nested up to "
+        "depth 4; the directory of the file of parse_path / save is plain, reached through a symlink, given relative to the cwd, or "
+        "both; defaults are caller-owned "
         "objects) and seeded random argument objects: parsed-form or raw (numbers as strings, tuples given for lists and lists "
         "for tuples), ~30% made to fail (wrong value, preferably at the LAST key, unknown key, wrong arity, existing file), a few "
         "with one container shared between two keys. Before/after: deep snapshot (value, type, identity of every nested "
@@ -19,11 +21,18 @@ RULE = ("one API call {get_defaults, parse_object(dict|Namespace), parse_string,
         "type Base / Optional[Base] / List[Base] (test classes Unit, Leaf, Node, Pair, Bag, Deep; Pair and Deep take their sub-objects "
         "from SIGNATURE DEFAULTS, some arguments have lazy_instance defaults), a random configuration of nested class_path/init_args "
         "specs (depth <= 3) is parsed, instantiate_classes is called twice on it and the identity of every built object (numbered by "
-        "first appearance, objects of the family alive before the calls first) is reported; non-trivial = at least 2 specs")
+        "first appearance, objects of the family alive before the calls first) is reported; argument types also Tuple[Base,int], "
+        "Tuple[Tuple[Base,int],str], Tuple[Tuple[Tuple[int,Base],List[Base]],int] (specs up to three tuple levels deep), specs with "
+        "dict_kwargs; validate and dump (twice) run on the configuration before the two instantiate calls and a deep identity-aware "
+        "snapshot of it is compared; non-trivial = at least 2 specs. Plus, exhaustively, the 48 'bracket' cases: entry point "
+        "{parse_args with --cfg file, get_defaults / format_help / parse_args with default_config_files, List[int] list file "
+        "(enable_path), parse_env} x directory flavour {plain, symlink, relative, both} x {succeeds, fails midway}: globals and the "
+        "argv list / environ dict before vs after")
 TRUSTED = [
     "Coq 8.16.1 kernel + vm_compute",
     "tie/impl/c08_inst.py + tie/impl/c08_classes.py (walk the built object trees, number identities by first appearance)",
     "hand-written model coq/Model/C08Inst.v (object identity as an allocation counter)",
+    "tie/impl/c08_aux.py (bracket cases) and the region lists Model.C08Heap.aux_regions",
     "tie/impl/c08_heap.py (builds the objects, takes the identity-aware snapshots) and the Gallina printer in tie/props/c08.py",
     "hand-written model coq/Model/C08Heap.v, tied by per-case agreement (outcome, write set, aliasing of the result) evaluated inside Coq",
 ]
@@ -65,9 +74,13 @@ META = {
         "and declared default, get_defaults(), cwd, os.environ, argparse.Namespace and the context variables before/after; Coq "
         "computes model agreement (outcome, write set, aliasing of the result) and spec agreement per case; plus 'instantiate twice' "
         "cases on parsers with subclass-typed arguments (specs given, lazy_instance parser defaults, specs derived from signature "
-        "defaults) where the identities of all built objects are compared with the model."),
+        "defaults, specs up to three tuple levels deep) where the identities of all built objects are compared with the model; plus "
+        "C08_regions_restore / C08_aux_brackets_restore (any nest of try/finally regions around a body that leaves the globals alone "
+        "restores them) tied exhaustively to parse_args --cfg, default_config_files, list files and parse_env on plain, symlinked "
+        "and relative directories, succeeding and failing."),
     "level_note": (
-        "Partial: not modelled and not proved - parse_args on argument-string lists, format_help, config files, env parsing, links, "
+        "Partial: not modelled and not proved - the heap effects of parse_args on argument-string lists, format_help, config files "
+        "and env parsing (only their try/finally skeleton is modelled; argv list / environ dict unchanged is observed), links, "
         "subcommands, meta keys, Set types, the effect of parse/validate/dump on class_path/init_args specs (the heap model has no "
         "class types; the instantiation model abstracts the parser away and only says which objects are built), custom instantiators, "
         "user objects with __eq__/__deepcopy__, threads. os.environ is observed but never written by the modelled code. "
@@ -85,6 +98,9 @@ TYPES = [
     ["opt", ["list", I]], ["tup2", I, S], ["list", ["tup2", I, I]], ["opt", ["dict", I]],
     ["tup1", ["list", I]], ["tup2", I, ["list", I]], ["tup1", ["list", ["tup2", I, I]]], ["tup1", ["dict", I]],
     ["list", ["tup1", ["list", I]]], ["dict", ["tup2", I, ["list", I]]],
+    # containers two and three tuple levels deep (a tuple that holds only leaves and tuples)
+    ["tup1", ["tup1", ["list", I]]], ["tup2", ["tup2", I, ["list", I]], S], ["tup1", ["tup2", I, ["list", ["tup2", I, I]]]],
+    ["tup2", ["tup1", ["dict", I]], I], ["list", ["tup1", ["tup1", ["list", I]]]], ["tup1", ["tup1", ["tup2", S, ["dict", ["list", I]]]]],
 ]
 SCALARISH = [I, S, ["opt", I], ["opt", S], ["tup2", I, S], ["list", I], ["list", ["tup2", I, I]]]
 WORDS = ["x", "ab", "foo", "q1", "12", "7"]
@@ -210,6 +226,10 @@ def mk_case(decls, op_kind, args=(), content=None, **flags):
     return {"parser": parser, "heap": fl.heap, "op": op}
 
 
+# how the directory of a config file / save target is reached: plain, through a symlink, relative to the cwd, both
+DIRS = ["plain", "plain", "symlink", "rel", "symrel"]
+
+
 def one_case(rng):
     r = rng.random()
     kind = ("parse_object" if r < 0.22 else "dump" if r < 0.36 else "validate" if r < 0.46 else "instantiate" if r < 0.56
@@ -243,7 +263,7 @@ def one_case(rng):
         q.update(json=True, raw=0.5)
         cfg = gen_cfg(rng, decls, q, as_ns=False, p_key=0.7, fail_last=fail_last)
         cfg = {k: (list(v) if isinstance(v, tuple) else v) for k, v in cfg.items()}
-        return mk_case(decls, kind, content=cfg)
+        return mk_case(decls, kind, content=cfg, **({"dir": rng.choice(DIRS)} if kind == "parse_path" else {}))
     if kind == "merge":
         a = gen_cfg(rng, decls, q, p_key=0.5, p_unknown=0.15)
         b = a if rng.random() < 0.05 else gen_cfg(rng, decls, q, p_key=0.8, p_unknown=0.1)
@@ -256,7 +276,7 @@ def one_case(rng):
     if kind == "dump":
         return mk_case(decls, kind, [cfg], skipval=rng.random() < 0.25)
     if kind == "save":
-        return mk_case(decls, kind, [cfg], exists=failing and rng.random() < 0.3)
+        return mk_case(decls, kind, [cfg], exists=failing and rng.random() < 0.3, dir=rng.choice(DIRS))
     return mk_case(decls, kind, [cfg])
 
 
@@ -279,6 +299,13 @@ def fixed_cases():
         mk_case([["k", LL, [[1], [2]]], ["a", I, 3]], "parse_path", content={"k": [["1"]], "a": "foo"}),
         mk_case([["k", LL, [[1], [2]]], ["a", I, 3]], "save", [NS(k=[["1"]], a=4)], exists=False),
         mk_case([["k", LL, [[1], [2]]], ["a", I, 3]], "save", [NS(k=[["1"]], a=4)], exists=True),
+        # a list two tuple levels deep: the outer tuple holds only a tuple
+        mk_case([["k", ["tup1", ["tup1", ["list", I]]], None]], "validate", [NS(k=((["1", 2],),))]),
+        mk_case([["k", ["tup1", ["tup2", I, ["list", ["tup2", I, I]]]], None]], "dump", [NS(k=((7, [(1, 2)]),))], skipval=False),
+        mk_case([["k", ["tup1", ["tup1", ["list", I]]], (([1],),)]], "get_defaults"),
+        mk_case([["k", LL, [[1], [2]]], ["a", I, 3]], "parse_path", content={"k": [["1"]], "a": "foo"}, dir="symlink"),
+        mk_case([["k", LL, [[1], [2]]], ["a", I, 3]], "parse_path", content={"k": [["1"]], "a": 4}, dir="symrel"),
+        mk_case([["k", LL, [[1], [2]]], ["a", I, 3]], "save", [NS(k=[["1"]], a=4)], exists=False, dir="symlink"),
     ]
     return cs
 
@@ -289,6 +316,8 @@ def gen_spec(rng, depth):
     if depth <= 0 or r < 0.3:
         if rng.random() < 0.25:
             return {"cls": "Unit", "args": {}}                 # a class without parameters
+        if rng.random() < 0.25:
+            return {"cls": "Open", "args": {"x": rng.randint(0, 9)}, "dict_kwargs": {"extra": rng.randint(0, 9)}}
         return {"cls": "Leaf", "args": ({"x": rng.randint(0, 9)} if rng.random() < 0.7 else {})}
     if r < 0.5:
         return {"cls": "Node", "args": {"child": gen_spec(rng, depth - 1), "n": rng.randint(0, 9)}}
@@ -307,7 +336,19 @@ def gen_spec(rng, depth):
 def inst_case(rng):
     decls, cfg = [], {}
     for key in PKEYS[: rng.randint(1, 4)]:
-        kind = rng.choice(["base", "base", "optbase", "listbase"])
+        kind = rng.choice(["base", "base", "optbase", "listbase", "tupbase", "tuptupbase", "tup3base"])
+        if kind == "tupbase":                              # Tuple[Base, int]
+            decls.append([key, kind, None])
+            cfg[key] = [gen_spec(rng, rng.randint(0, 2)), rng.randint(0, 9)]
+            continue
+        if kind == "tuptupbase":                           # Tuple[Tuple[Base, int], str]: a spec two tuple levels deep
+            decls.append([key, kind, None])
+            cfg[key] = [[gen_spec(rng, rng.randint(0, 2)), rng.randint(0, 9)], rng.choice(WORDS[:4])]
+            continue
+        if kind == "tup3base":                             # Tuple[Tuple[Tuple[int, Base], List[Base]], int]
+            decls.append([key, kind, None])
+            cfg[key] = [[[rng.randint(0, 9), gen_spec(rng, 1)], [gen_spec(rng, 1) for _ in range(rng.randint(0, 2))]], rng.randint(0, 9)]
+            continue
         dflt = None
         if kind != "listbase" and rng.random() < 0.35:
             dflt = gen_spec(rng, 1)
@@ -329,7 +370,25 @@ def fixed_inst_cases():
         {"kind": "inst", "decls": [["a", "base", {"cls": "Deep", "args": {}}]], "cfg": {}},                    # parser default, nested defaults
         {"kind": "inst", "decls": [["a", "listbase", None], ["b", "optbase", None]],
          "cfg": {"a": [leaf, leaf, {"cls": "Bag", "args": {"elems": [leaf, leaf]}}]}},                         # equal specs, distinct objects
+        {"kind": "inst", "decls": [["a", "tuptupbase", None]], "cfg": {"a": [[leaf, 5], "x"]}},               # spec two tuple levels deep
+        {"kind": "inst", "decls": [["a", "tuptupbase", None]],
+         "cfg": {"a": [[{"cls": "Open", "args": {"x": 2}, "dict_kwargs": {"extra": 3}}, 5], "x"]}},
+        {"kind": "inst", "decls": [["a", "tup3base", None]], "cfg": {"a": [[[7, {"cls": "Pair", "args": {}}], [leaf]], 5]}},
     ]
+
+
+AUX_ENTRIES = ["args_cfg", "dflt_get_defaults", "dflt_help", "dflt_parse_args", "list_file", "parse_env"]
+
+
+def aux_cases():
+    """all of them: entry point x directory flavour x (succeeds | fails midway)"""
+    return [{"kind": "aux", "entry": e, "dir": d, "fail": f} for e in AUX_ENTRIES for d in ["plain", "symlink", "rel", "symrel"]
+            for f in (False, True)]
+
+
+def is_aux(case):
+    return case.get("kind") == "aux"
+
 
 
 def is_inst(case):
@@ -337,11 +396,10 @@ def is_inst(case):
 
 
 def generate(rng, tier):
-    cases = fixed_cases()
+    cases = fixed_cases() + fixed_inst_cases() + aux_cases()
     n = 1500 if tier == "quick" else 25000
     for _ in range(n):
         cases.append(one_case(rng))
-    cases += fixed_inst_cases()
     for _ in range(150 if tier == "quick" else 2500):
         cases.append(inst_case(rng))
     return cases
@@ -349,8 +407,18 @@ def generate(rng, tier):
 
 def observe(all_cases):
     idx_i = [n for n, c in enumerate(all_cases) if is_inst(c)]
-    idx_h = [n for n, c in enumerate(all_cases) if not is_inst(c)]
+    idx_a = [n for n, c in enumerate(all_cases) if is_aux(c)]
+    idx_h = [n for n, c in enumerate(all_cases) if not is_inst(c) and not is_aux(c)]
     out = [None] * len(all_cases)
+    if idx_a:
+        base = fw.scratch_dir("c08a")
+        try:
+            res = fw.run_impl("c08_aux.py", {"cases": [all_cases[n] for n in idx_a], "scratch": os.path.join(base, "w")})
+        finally:
+            import shutil
+            shutil.rmtree(base, ignore_errors=True)
+        for n, o in zip(idx_a, res):
+            out[n] = o
     if idx_h:
         for n, o in zip(idx_h, observe_heap([all_cases[n] for n in idx_h])):
             out[n] = o
@@ -479,6 +547,10 @@ def g_ivals(xs):
 
 
 def term(case, obs):
+    if is_aux(case):
+        return "AuxCase {| a_entry := %s; a_fails := %s; a_ok := %s; a_globals := %s; a_args_same := %s |}" % (
+            fw.g_N(AUX_ENTRIES.index(case["entry"])), g_bool(case["fail"]), g_bool(obs["ok"]),
+            g_list([g_bool(b) for b in obs["globals"]], "bool"), g_bool(obs["args_same"]))
     if is_inst(case):
         return ("InstCase {| i_ok := %s; i_c := %s; i_cfg := %s; i_ids1 := %s; i_ids2 := %s; i_cfg_same := %s |}" % (
             g_bool(obs["ok"]), g_nat(obs["c"]), g_ivals(obs["tree"]["list"]), g_list([g_nat(i) for i in obs["ids1"]], "nat"),
@@ -496,6 +568,8 @@ def heap_term(case, obs):
 
 
 def nontrivial_key(case, obs):
+    if is_aux(case):
+        return repr((case["entry"], case["dir"], case["fail"]))
     if is_inst(case):
         return None if len(obs["ids1"]) < 2 else repr((case["decls"], case["cfg"]))
     n = len(case["heap"]) + len(case["op"].get("cells", []))
@@ -503,6 +577,8 @@ def nontrivial_key(case, obs):
 
 
 def category(case, obs):
+    if is_aux(case):
+        return "%s/%s/%s" % (case["entry"], case["dir"], "ok" if obs["ok"] else "raised")
     if is_inst(case):
         return "instantiate_twice/%s" % ("ok" if obs["ok"] else "raised")
     return "%s/%s" % (case["op"]["op"], "ok" if obs["ok"] else "raised")
@@ -513,6 +589,11 @@ GLOBAL_NAMES = ["cwd", "argparse.Namespace", "parent_parser", "lenient_check", "
 
 
 def describe(case, obs):
+    if is_aux(case):
+        return {"entry point": case["entry"], "directory of the file reached": case["dir"], "made to fail midway": case["fail"],
+                "returned": obs["ok"], "exception": obs.get("exc", ""),
+                "globals_changed": [GLOBAL_NAMES[i] for i, b in enumerate(obs["globals"]) if not b],
+                "argument object (argv list / environ dict) unchanged": obs["args_same"]}
     if is_inst(case):
         return {"parser(key,kind,default spec)": case["decls"], "configuration given": case["cfg"],
                 "parsed configuration as spec tree": obs["tree"], "objects of the family alive before": obs["c"],
@@ -542,6 +623,8 @@ def unchanged(cell, o):
 
 def shrink(case):
     """drop one key of a top-level argument object, or one parser argument"""
+    if is_aux(case):
+        return
     if is_inst(case):
         for i in range(len(case["decls"])):
             if len(case["decls"]) > 1:
